@@ -78,6 +78,11 @@ def run_verus(prop, tier, plan, ev, findings):
                     other.append(name)
             if r['status'] == 'undecided':
                 undecided.append('%s: %s' % (tag, r.get('reason')))
+            for g in r.get('gave_up', []):
+                gp = meta['fns'].get(g, {}).get('props', [])
+                ev.setdefault('gave_up', []).append('%s::%s' % (tag, g))
+                if prop in gp:
+                    undecided.append('%s: the body of %s could not be verified on this tree (lost anchor or unsupported construct); %s depends on it' % (tag, g, prop))
             ev['verus_runs'].append(dict(unit=tag, status=r['status'], functions_verified=r['verified'], function_errors=r['errors'],
                                          obligations_for_property=n_obl, failed=len(failed), smt_ms=r.get('smt_ms'), total_ms=r.get('total_ms'),
                                          wall_s=round(r.get('wall_s', 0), 2), checker_cmd=r.get('cmd'),
@@ -199,6 +204,7 @@ def write_evidence(prop, tier, seed, plan, ev, nviol, undecided, wall):
         extraction_rewrites=sorted(ev['rewrites']), extraction_dropped=sorted(ev['dropped']),
         trusted_functions=sorted(ev['trusted_fns']),
         undecided=undecided,
+        functions_given_up=ev.get('gave_up', []),
         explanation=plan.get('explanation', ''),
         # exploration-style keys (required for model_checking fallback): one evaluation = one obligation or one harness run
         evaluations=ev['obligations'] + len(ev['kani_runs']),
